@@ -637,6 +637,18 @@ def long_strings(sizes=(25, 80)):
     return out
 
 
+OPENERS = [':"', '"', '0c', '[', '{', '(', ':[', ':{', '[;', 'f(', '.comment("', ':', '1e', '1.', '-', ':|', "+/", "a::"]
+
+
+def opener_strings():
+    """every construct opener followed by every character (alone, doubled, after a blank, before a quote)"""
+    out = []
+    for o in OPENERS:
+        for a in ALPHABET:
+            out += [o + a, o + a + a, o + " " + a, o + a + '"', o + a + ")", "x" + o + a]
+    return out
+
+
 def exhaustive(maxlen):
     out = [""]
     layer = [""]
@@ -648,25 +660,47 @@ def exhaustive(maxlen):
 
 # --------------------------------------------------------------------------- static obligations
 
+PARSE_PATH = {
+    "parser.py": {"cmatch", "cmatch2", "cpeek", "cpeek2", "cexpect", "cexpect2", "read_shifted_comment",
+                  "read_sys_comment", "skip_space", "skip", "read_num", "read_char", "read_sym", "read_op",
+                  "read_string", "list_to_dict", "read_list", "kg_read", "kg_read_array", "read_cond",
+                  "peek_adverb", "read_expr_array"},
+    "interpreter.py": PARSER_FUNCS | {"current_module", "_is_monad", "_is_dyad"},
+}
+
+
 def loop_inventory():
-    """which functions of the anchored code contain loops (translator part): a new loop is a
-    new termination obligation the model does not have"""
+    """translator part: the functions on the parse path (prog and everything it calls inside
+    parser.py / interpreter.py) contain exactly the loops the model has, and call no function of
+    their module that the model does not have.  A new loop or helper on the parse path is a new
+    termination obligation."""
     found = {}
+    problems = []
     for fname, expected in EXPECTED_LOOPS.items():
         tree = pyast.parse((common.REPO / "klongpy" / fname).read_text())
-        got = {}
+        defined = set()
         for node in pyast.walk(tree):
             if isinstance(node, pyast.FunctionDef):
-                if fname == "interpreter.py" and node.name not in PARSER_FUNCS:
-                    continue
+                defined.add(node.name)
+        got = {}
+        for node in pyast.walk(tree):
+            if isinstance(node, pyast.FunctionDef) and node.name in PARSE_PATH[fname]:
                 n = sum(1 for x in pyast.walk(node) if isinstance(x, (pyast.While, pyast.For, pyast.ListComp,
-                                                                       pyast.DictComp, pyast.GeneratorExp)))
-                inner = sum(1 for x in pyast.walk(node) if isinstance(x, pyast.FunctionDef)) - 1
-                if n and not inner:
+                                                                       pyast.DictComp, pyast.GeneratorExp, pyast.SetComp)))
+                if n:
                     got[node.name] = n
+                for x in pyast.walk(node):
+                    if isinstance(x, pyast.Call):
+                        f = x.func
+                        name = f.id if isinstance(f, pyast.Name) else (f.attr if isinstance(f, pyast.Attribute) else None)
+                        owner_ok = isinstance(f, pyast.Name) or (isinstance(f.value, pyast.Name) and f.value.id in ("self", "klong"))
+                        if name in defined and owner_ok and name not in PARSE_PATH[fname] and name not in ("__init__",):
+                            problems.append(f"{fname}:{node.name} calls {name}")
         found[fname] = got
     exp = {"parser.py": dict(EXPECTED_LOOPS["parser.py"], list_to_dict=1), "interpreter.py": EXPECTED_LOOPS["interpreter.py"]}
-    return found == exp, found
+    if found != exp:
+        problems.append(f"loops {found} != {exp}")
+    return not problems, problems or found
 
 
 # --------------------------------------------------------------------------- entry
@@ -697,6 +731,9 @@ def _cases(ctx):
     for s in exhaustive(2 if quick else 3):
         if fresh(s, None):
             yield ("exhaustive", s, None, True)
+    for s in opener_strings():
+        if fresh(s, None):
+            yield ("opener", s, None, True)
     # the short strings again inside a module (symbols get qualified)
     ex2 = exhaustive(2)
     for s in (rng.sample(ex2, 300) if quick else ex2):
@@ -768,7 +805,7 @@ def run(ctx):
                 "again inside a module; token-level edits (delete, insert, swap, truncate) of the unique lines of every "
                 ".kg file of the repository: a seeded sample of single and double edits (quick) / every delete, truncate, "
                 "swap and one seeded insert per position, every pool insert for 500 lines, 100k double edits (thorough); "
-                "a fixed set of long generated strings. distinct = distinct (text, module); non-trivial = length >= 2")
+                "every construct opener followed by every character; a fixed set of long generated strings. distinct = distinct (text, module); non-trivial = length >= 2")
     ctx.assumptions += [
         "Python's recursion limit is not modelled: RecursionError counts as an error after bounded work and is excluded from the model comparison",
         "character classes of the model are ASCII; texts containing a non-ASCII letter/digit/space are checked by the oracles only",
